@@ -369,7 +369,14 @@ def eval_cases(ck, cases, variant):
         if rc != 0 or not m:
             ck.broken.append("model evaluation (%s) failed on shard %d: %s" % (variant, idx, o[-300:]))
             continue
-        for a, b in re.findall(r"\((\d+),\s*(\d+)\)", m.group(1)):
+        # Coq's printer may break a line right after an opening parenthesis ("(\n 105, 3)"): normalise first, and
+        # fail closed if not every tuple of the printed list was understood
+        flat = re.sub(r"%\w+", "", re.sub(r"\s+", "", m.group(1)))
+        tups = re.findall(r"\((\d+),(\d+)\)", flat)
+        if len(tups) != flat.count("(") or not re.fullmatch(r"\[(\(\d+,\d+\)(;\(\d+,\d+\))*)?\]", flat):
+            ck.broken.append("model evaluation (%s): the mismatch list of shard %d could not be parsed completely: %s" % (variant, idx, flat[:300]))
+            continue
+        for a, b in tups:
             codes[idx * shard + int(a)] = int(b)
     return codes
 
@@ -659,6 +666,14 @@ def main(ck):
                     ck.nofail_detail = {"kind": "forced-schedule", "case": {"specs": c["specs"], "sched": c["sched"]}, "harness": o}
                 continue
             good.append(i)
+        # canary of the evaluation + parsing path: 24 copies of an agreeing case with one view falsified must ALL come
+        # back as mismatches (long mismatch lists are what Coq's printer wraps)
+        src = next((cases[i] for i in good if any(cases[i]["specs"][int(r)][0] == "R" and qs for r, qs in cases[i]["obs"].items())), None)
+        if src is not None:
+            bad_obs = {r: ([list(qs[0]) + [999]] + list(qs[1:]) if (src["specs"][int(r)][0] == "R" and qs) else qs) for r, qs in src["obs"].items()}
+            canary = eval_cases(ck, [dict(src, obs=bad_obs) for _ in range(24)], "repaired")
+            if sorted(canary) != list(range(24)) or any(v not in (1, 2) for v in canary.values()):
+                ck.broken.append("evaluation canary: %d of 24 falsified cases were reported as mismatches (%s)" % (len(canary), sorted(canary)[:30]))
         cur = eval_cases(ck, [cases[i] for i in good], "current")
         rep = eval_cases(ck, [cases[i] for i in good], "repaired")
         n_cur = sum(1 for k in range(len(good)) if k not in cur)
@@ -701,10 +716,17 @@ def main(ck):
                 ck.violation({"kind": "direct-oracle", "what": what, "case": {"specs": c["specs"], "sched": c["sched"]},
                               "views": c["obs"], "trace": c["out"]["trace"]})
         if variant is None and not oracle_failed:
+            # neither variant explains every case: report a case that disagrees with both if there is one, else the
+            # first case that disagrees with `repaired` (never end with "NEITHER" and exit 0)
             k = next((k for k in range(len(good)) if k in cur and k in rep), None)
+            if k is None:
+                k = next((k for k in range(len(good)) if k in rep), None)
+            if k is None and good:
+                k = next((k for k in range(len(good)) if k in cur), None)
             if k is not None:
                 c = cases[good[k]]
-                ck.broken.append("correspondence C04: the views of forced schedule %s agree with neither model variant" % c["tag"])
+                ck.broken.append("correspondence C04: the views of forced schedule %s agree with %s" % (
+                    c["tag"], "neither model variant" if (k in cur and k in rep) else "no single model variant over the whole run (this case disagrees with `%s`)" % ("repaired" if k in rep else "current")))
                 ck.nofail_detail = {"kind": "correspondence", "case": {"specs": c["specs"], "sched": c["sched"]}, "views": c["obs"],
                                     "trace": c["out"]["trace"], "model_code_current": cur.get(k), "model_code_repaired": rep.get(k)}
         elif variant is None and oracle_failed and not ck.violations:
